@@ -217,6 +217,26 @@ def twin_c13_edge(k):
     pairs = [(len(pre), len(bpre))] + [(len(pre) + 1 + i, len(bpre) + 1 + i) for i in range(len(post))]
     return {"a": a, "b": b, "pairs": pairs, "keys": None, "events": True, "ret": True, "nontrivial": len(post)}
 
+def twin_c13_ecc(k):
+    """C13 for the country look-up: a PI with country nibble k % 16 and an ECC are received (twice: also confirmed under the
+    extended check), then clear, then the same ECC behind a damaged block A — the parser knows no PI and must report what a
+    fresh parser reports: a look-up result remembered across the reset (keyed on a PI that is 'unknown' now) shows here"""
+    nib = k % 16
+    ecc = (0xE0, 0xE1, 0xE2, 0xE3, 0xE4, 0xA0, 0xD0, 0xF0)[(k // 16) % 8]
+    pi = (nib << 12) | 0x0201
+    pre = ["new"] + ALL_CBS + (["x 1"] if (k // 128) % 2 else [])
+    g1 = P(pi, 0x1000 | (5 << 5), ecc, 0)
+    pre += [g1, g1]
+    blind = P(pi, 0x1000 | (5 << 5), ecc, 0, 1, 0, 0, 0)
+    post = [blind, blind, P(0x1234, 0x0008, 0x0A14, 0x4142), blind, g1]
+    tr = Tracker()
+    for line in pre: tr.feed(line)
+    a = pre + ["clear"] + post
+    bpre = ["new"] + tr.settings_ops() + tr.observer_ops()
+    b = bpre + ["q"] + post
+    pairs = [(len(pre), len(bpre))] + [(len(pre) + 1 + i, len(bpre) + 1 + i) for i in range(len(post))]
+    return {"a": a, "b": b, "pairs": pairs, "keys": None, "events": True, "ret": True, "nontrivial": len(post)}
+
 def twin_c13_other(k):
     """C13 with a second parser around: instance 0 collects a history (AF list and candidates, scalars, texts), then ANOTHER
     instance is created, fed or not, and cleared; then instance 0 is cleared and must be indistinguishable from a fresh parser
